@@ -61,6 +61,8 @@ def synth_table(rng, kind, t_first, t_last):
     if kind == "nodes":
         xs = sorted(rng.sample(range(t_first - 2000, t_last + 2000), 5))
         return [(x, F(rng.randrange(-250, 250), 100)) for x in xs]
+    if kind == "crossing":   # the error changes sign from negative to positive inside the pass, staying below one line period
+        return [(t_first - 1000, F(-rng.randrange(1, 9), 100)), (t_last + 1000, F(rng.randrange(1, 9), 100))]
     if kind == "after":      # the pass lies after the table's end
         return [(t_first - 10 ** 8, F(-4, 10)), (t_first - 10 ** 6, F(131, 100))]
     if kind == "before":
@@ -95,7 +97,7 @@ def part_a(res, rng, tier, seed, gen, coq):
     reps = 2 if tier == "quick" else 10
     for _ in range(reps):
         for fmt in ("gac_pod", "lac_pod"):
-            for kind in ("const", "const", "linear", "nodes", "zero", "after", "before"):
+            for kind in ("const", "const", "linear", "nodes", "zero", "after", "before", "crossing"):
                 plans.append((fmt, "noaa14", kind))
         plans += [("gac_pod", "noaa11", "real"), ("gac_pod", "noaa9", "real"), ("lac_pod", "noaa7", "real"),
                   ("gac_pod", "noaa14", "real"), ("gac_pod", "noaa12", "real")]
@@ -109,7 +111,7 @@ def part_a(res, rng, tier, seed, gen, coq):
         true_period_us = Fraction(rate_us)
         n = rng.choice([20, 60, 150, 300])
         first = rng.choice([1, 5, 300])
-        nums = numbers_for(rng, n, first, rng.choice(["none", "single", "block", "random"]))
+        nums = numbers_for(rng, n, first, "none" if kind == "crossing" else rng.choice(["none", "single", "block", "random"]))
         if kind == "real":
             rows = [(int(x), Fraction(int(f["num"]), int(f["den"]))) for x, f in clock[sc]]
             inv = [i for i in range(len(rows) - 1) if rows[i + 1][0] < rows[i][0]]
@@ -249,7 +251,7 @@ def gc_dist(lon1, lat1, lon2, lat2):
 
 def part_b(res, rng, tier, seed, gen, d):
     tle_dir, tle_name = impl.make_tle_dir(d)
-    plans = [("gac_pod", 200, "const"), ("lac_pod", 1500, "const"), ("gac_pod", 120, "linear")]
+    plans = [("gac_pod", 200, "const"), ("lac_pod", 1500, "const"), ("gac_pod", 120, "linear"), ("gac_pod", 90, "crossing"), ("lac_pod", 150, "crossing")]
     if tier != "quick":
         plans += [("gac_pod", 400, "nodes"), ("lac_pod", 2500, "linear"), ("lac_pod", 600, "const"), ("gac_pod", 60, "const")] * 2
     expected_pos = {"gac": [23.5 + 40 * k for k in range(51)], "lac": [24.0 + 40 * k for k in range(51)]}
@@ -257,7 +259,7 @@ def part_b(res, rng, tier, seed, gen, d):
         res_ = l1b.FMT[fmt]["res"]
         period_us = Fraction(10 ** 6, 2) if res_ == "gac" else Fraction(10 ** 6, 6)
         first = rng.choice([1, 40])
-        nums = numbers_for(rng, n, first, rng.choice(["single", "block", "random"]))
+        nums = numbers_for(rng, n, first, "none" if kind == "crossing" else rng.choice(["single", "block", "random"]))
         t0 = tg.ms_of(datetime.datetime(2001, 3, 4, 0, 0, 0)) + rng.randrange(0, 40 * 86400) * 1000
         start = tg.dt_of(t0)
         ctx = dict(fmt=fmt, lines=n, first_number=nums[0], table=kind, start=str(start), seed=seed, orbit="TLE noaa16 (as noaa14)")
@@ -292,7 +294,7 @@ def part_b(res, rng, tier, seed, gen, d):
             res.violations.append(("clock-drift correction with a real orbit raised %r" % (e,), dict(ctx, traceback=traceback.format_exc()[-600:])))
             continue
         res.traces += 1
-        if seen.get("positions") != expected_pos[res_]:
+        if seen and seen.get("positions") != expected_pos[res_]:      # (nothing is handed over when no line of the range is absent)
             res.violations.append(("absent lines are recomputed with scan positions other than the tie points' (23.5+40k GAC / 24+40k LAC, LAC pixel units)",
                                    dict(ctx, handed_to_pyorbital=(seen.get("positions") or [])[:4], expected=expected_pos[res_][:4])))
         # the orbit evaluated directly at the corrected times
